@@ -56,7 +56,7 @@ pub fn run(cx: &mut Ctx) {
     for r in 1..=3 { for c in 1..=4 { all.extend(mats(r, c)); } }
     // a few larger shapes (sampled deterministically)
     let mut seed = 0x2545F4914F6CDD1Du64;
-    for &(r, c) in &[(4usize, 5usize), (5, 5), (4, 7), (6, 6)] { for _ in 0..150 {
+    for &(r, c) in &[(4usize, 5usize), (5, 5), (4, 7), (6, 6)] { for _ in 0..150 * crate::scale() as usize {
         all.push((0..r).map(|_| (0..c).map(|_| { seed ^= seed << 13; seed ^= seed >> 7; seed ^= seed << 17; (seed >> 33 & 1) as u8 }).collect()).collect());
     } }
     cx.check("gauss_every_blocksize", |cb| {
@@ -111,7 +111,7 @@ pub fn run(cx: &mut Ctx) {
         // invertible by construction: random row additions applied to the identity (dense for larger n)
         let mut sd = 0xD1B54A32D192ED03u64;
         let mut nx = move |m: usize| { sd ^= sd << 13; sd ^= sd >> 7; sd ^= sd << 17; (sd >> 11) as usize % m };
-        for &n in &[8usize, 12, 16, 20, 24, 32] { for rep in 0..6 {
+        for &n in &[8usize, 12, 16, 20, 24, 32] { for rep in 0..6 * crate::scale() as usize {
             let mut m = ident(n);
             for _ in 0..n * n { let (a, b) = (nx(n), nx(n)); if a != b { let src = m[a].clone(); for j in 0..n { m[b][j] ^= src[j]; } } }
             let a = Mat2::new(m.clone());
